@@ -17,7 +17,8 @@ pub const SENDERS: [&str; 12] = [
 
 pub const WORLDS: [&str; 7] = ["fresh", "evolved", "transferred", "abandoned", "pending", "repointed", "noreg"];
 
-const SETUP: &[&str] = &[
+/// the standard wiring script (also the prelude of `surface-probe`)
+pub const SETUP: &[&str] = &[
     "reset 100",
     "gift user0 usei 1000000000",
     "gift user1 usei 1000000000",
